@@ -19,10 +19,16 @@ META = {
                   "reaches Reqs.Upgrade's version); names_preserved_new_names_unique; tidy_idempotent; get_idempotent "
                   "under the reported hypothesis 'the build list has the resolved version' with "
                   "get_idempotent_refuted (F16 witness, vm_compute) and resolve_query_bl_independent; "
-                  "previous_strictly_lower (the F13 fact). PARTIAL: downgrade_at_or_below_partial and "
-                  "downgrade_terminates_partial cover the three BuildList phases of mvs.Downgrade; the missing lemma "
-                  "is down_list_spec (the add/exclude/previous phase only reaches in-bound nodes and does not exhaust "
-                  "its fuel); upgrade-all idempotence is not proved. The model is tied to the code by running Get "
+                  "previous_strictly_lower (the F13 fact). mvs.Downgrade is proved in full: down_list_reach + "
+                  "down_list_no_hang (the add/exclude/previous phase - the formerly missing lemma down_list_spec: its "
+                  "result only reaches nodes of the finite node set, none a version of the requested project above "
+                  "the request, and it exhausts neither the add/exclude depth fuel nor the for-excluded loop fuel), "
+                  "mvs_downgrade_at_or_below (library level), downgrade_at_or_below (get's downgrade branch for "
+                  "whatever version the query resolved to: the new requirements resolve and their build list has the "
+                  "project absent or at or below the resolved version), downgrade_terminates (neither mvs.Downgrade "
+                  "nor Downgrade-then-ReqList hangs or panics), with downgrade_example (cycle, rdeps propagation, "
+                  "previous-loop). upgrade_all_idempotent (the repeat explores a subgraph that still contains the plain graph of the "
+                  "new requirements) with upgrade_all_idempotent_example. The model is tied to the code by running Get "
                   "(every query class), Tidy and UpgradeAll in sequences of 1-4 operations on generated universes, including "
                   "universes and roots that require untagged commits (selections that are no tag) with queries aimed at "
                   "those selections, and with patch/upgrade resolution compared with an independent reference; every "
